@@ -53,8 +53,7 @@ def make_block(spec):
         real = ModbusSequentialDataBlock(spec['start'], list(vals))
         model = ModelBlock({spec['start'] + i: v for i, v in enumerate(vals)}, type(vals[0])())
     else:
-        cells = {int(k): v for k, v in spec['cells'].items()}
-        cells = dict(sorted(cells.items()))
+        cells = {int(k): v for k, v in spec['cells'].items()}         # insertion order as given (not necessarily ascending)
         real = ModbusSparseDataBlock(dict(cells))
         model = ModelBlock(cells, type(next(iter(cells.values())))())
     return real, model
@@ -154,6 +153,10 @@ def sweep_sparse(run):
     for base in (0, 3, 65528):
         for mask in range(1, 256):
             keys = [base + i for i in range(8) if mask >> i & 1]
+            if mask % 3 == 1:
+                keys.reverse()                     # populated in descending address order
+            elif mask % 3 == 2:
+                keys = keys[1::2] + keys[0::2]     # interleaved insertion order
             spec = {'type': 'sparse', 'cells': {k: 200 + k % 50 for k in keys}}
             n += 1
             if not run.mine(n):
@@ -177,6 +180,8 @@ def random_block_spec(r):
         return {'type': 'seq', 'start': start, 'values': [(r.random() < 0.5) if boolean else r.randrange(65536) for _ in range(size)]}
     base = r.choice([0, 1, 50, 65500])
     keys = sorted(set(base + r.randrange(0, 24) for _ in range(r.randint(1, 16))))
+    if r.random() < 0.6:
+        r.shuffle(keys)                            # dictionaries remember insertion order: address order must not depend on it
     boolean = r.random() < 0.4
     return {'type': 'sparse', 'cells': {k: (r.random() < 0.5) if boolean else r.randrange(65536) for k in keys}}
 
